@@ -35,6 +35,25 @@ def getSTVCfg (j : Json) : D STVCfg := do
     | _ => throw "bad transfer"
   pure { m := m, quota := q, simultaneous := sim, tiebreak := tb, transfer := t }
 
+/-- Under the random transfer the winners of a simultaneous round are processed in set-iteration order, which the
+model renders as listing order; when several of them are defective in different ways the exception class depends on
+that order (`C08_cand_order_random_transfer_differs`). For a raised answer in that configuration the driver also
+reports the exception classes met under the other rotations / reversals of the declared candidates. -/
+def stvExnAlts (cfg : STVCfg) (p : Profile) (ω : STVOracle) (qok : Bool) (ans : Json) : Json :=
+  if cfg.transfer == .random && cfg.simultaneous then
+    match ans.getObjVal? "exn" with
+    | .ok _ =>
+      let n := p.cands.length
+      let rots := (List.range n).map (fun k => p.cands.drop k ++ p.cands.take k)
+      let orders := rots ++ rots.map List.reverse
+      let alts := orders.filterMap (fun c' =>
+        match stvRun cfg { p with cands := c' } ω qok with
+        | .raised e => some (Json.str (exnName e))
+        | _ => none)
+      ans.setObjVal! "exn_alts" (.arr alts.eraseDups.toArray)
+    | .error _ => ans
+  else ans
+
 def quotaOk (j : Json) : Bool :=
   match fieldD j "quota" (.str "droop") with
   | .str "droop" => true
@@ -214,7 +233,7 @@ def handle (j : Json) : D Json := do
       ("states", jStates r.states), ("profiles", .arr (r.profiles.map jProfile).toArray),
       -- the hypothesis `hfpv` of C07_droop_psc_fractional, evaluated on this input
       ("fpv_link", .bool (decide (firstPlaceVotes p = .ok (tallies (stvInitState p).bs p.cands))))])
-      (stvRun cfg p ω (quotaOk j)))
+      (stvRun cfg p ω (quotaOk j)) |> stvExnAlts cfg p ω (quotaOk j))
   | "plurality" => do
     let p ← getProfile (← field j "profile")
     let m ← getInt (← field j "m")
